@@ -119,4 +119,48 @@ def module_stub(sym, target_mod, alias, established, events=None, **data):
             raise raised
         return value
     o.attrs['__unknown_method__'] = unknown
+
+    def unknown_attr(name):
+        # a module-level table of the real module (`mocked.DEFAULT_MOCKED_MODULES`): its value, with every class or
+        # function it names standing for a marker factory, as when the module is called directly
+        import ast as _ast
+        from .fdeval import _MISSING, FD, module_resolver, Inconclusive as _Inc, Raised as _Rs
+        from .symbols import ClassInfo as _CI
+        value = None
+        for st in target_mod.tree.body:
+            if isinstance(st, _ast.Assign) and any(isinstance(t, _ast.Name) and t.id == name for t in st.targets):
+                value = st.value
+        if value is None:
+            return _MISSING
+        inner = module_resolver(sym, target_mod)
+
+        def resolver(nm):
+            if nm in data:
+                return data[nm]
+            r = sym.resolve_name(target_mod, nm)
+            if nm in established or isinstance(r, _CI) or (isinstance(r, tuple) and r and r[0] == 'func'):
+                f = lambda *a, _n=nm, **k: unknown(_n, *a, **k)
+                f._fd_callable = True
+                return f
+            return inner(nm)
+        try:
+            return FD(max_steps=100000, resolver=resolver).eval(value, {})
+        except (_Inc, _Rs):
+            return _MISSING
+    o.attrs['__unknown_attr__'] = unknown_attr
     return o, unknown
+
+
+def model_submission(ctx, main_code, main_file='answer.py', files=None, **attrs):
+    """A submission whose methods (get_lines, get_files_lines, replace_main, ...) are pedal's own, interpreted: an
+    instance of Submission with the bookkeeping of its __init__ and the given texts."""
+    smod = ctx.repo.module('pedal.core.submission')
+    base = dict(init_literals(smod, 'Submission'))
+    all_files = dict(files or {})
+    all_files.setdefault(main_file, main_code)
+    base.update(main_code=main_code, main_file=main_file, files=all_files, _original_main_code=main_code,
+                instructor_file='instructor_tests.py', load_error=None)
+    base.setdefault('line_offsets', {})
+    base.setdefault('_lines_cache', {})
+    base.update(attrs)
+    return self_obj(smod, 'Submission', **base)
